@@ -8,9 +8,15 @@ from . import clt, energy, series
 NSEC = 41
 
 
+def _alpha(p):
+    """semi-vertex angle from the user-level attribute (degrees), not from the derived `alpharad` a method under test may have
+    left on the object"""
+    return np.deg2rad(p.alphadeg if getattr(p, 'alphadeg', None) is not None else 0.0)
+
+
 def section_grid(p, ngx, ngy):
     a, bbot, rbot = p.a, p.b, p.r
-    sina = np.sin(p.alpharad)
+    sina = np.sin(_alpha(p))
     gx, wx = np.polynomial.legendre.leggauss(ngx)
     gy, wy = np.polynomial.legendre.leggauss(ngy)
     if p.y1 is not None and p.y2 is not None:
@@ -40,7 +46,7 @@ def k0_oracle(p, d):
     size = 3 * p.m * p.n
     K = np.zeros((size, size))
     S = np.zeros((size, size))
-    sina, cosa = np.sin(p.alpharad), np.cos(p.alpharad)
+    sina, cosa = np.sin(_alpha(p)), np.cos(_alpha(p))
     for r, b, xi, et, w in section_grid(p, ngx, ngy):
         B = series.donnell_B(p, xi, et, p.a, b, r=r, num=3, sina=sina, cosa=cosa)
         k, s = energy.quad_form(B, F, w)
